@@ -76,4 +76,20 @@ META['C14'] = {
   'level_text': 'Proved for all policies/inputs over arbitrary signature and preimage oracles: opaque substitution never changes a threshold address; opaque branches are unusable; height/time locks compare as >= and strictly-after; each key/hash leaf consumes exactly one valid witness and rejects a corrupt one; an accepted threshold has exactly N revealed children and no unlock-conditions child; accepted unlock conditions consumed exactly SignaturesRequired signatures against at most that many listed keys after the timelock; no witness is left over; complexity limits reject. The Go Verify/Address are tied to the model by recomputing accept/error-class and address bytes on enumerated small trees and random policies.',
 }
 
+META['C13'] = {
+  'rule': ('(a) chains from genesis on random network parameter sets (block interval 1 s..1 h, fork heights placed so that every era is crossed, Oak height sometimes > 500 so that the pre-Oak window rule fires) '
+           'with six timestamp patterns allowed by the median rule: on schedule, constant, as early as the rule allows, multi-day jumps, random around schedule, alternating median/jump; every ApplyHeader transition is recomputed by the model '
+           'from the implementation\'s previous state (all PoW fields: Depth, ChildTarget, OakTarget, TotalWork, Difficulty, OakWork, OakTime, height, 11 timestamps); '
+           '(b) random states per era within the physical guard (difficulty up to 2^200) incl. negative/tiny OakTime and elapsed times around the pre-Oak clamp boundaries; '
+           '(c) ValidateHeader on wrong parent / timestamps around the median / nonce factor / work, recomputed by the model; (d) SufficientlyHeavierThan both ways. '
+           'Go-side oracle: era clamps (factor in [0.4,2.5] at 500-block boundaries else unchanged; x1004/1000; D/250; max(D/250,1)), never zero, cumulative work non-decreasing / strictly increasing under v2, floored inverse, the four header conditions, asymmetry; a panic on a rule-abiding sequence is a violation'),
+  'trusted_base': [KERNEL, EXTRACT, HARNESS,
+                   'math/big Div/Mul/FillBytes semantics as modelled (Euclidean division on non-negative operands; intToTarget saturates at BitLen >= 256, i.e. from 2^255)',
+                   'time.Duration as int64 nanoseconds with wrap-around written explicitly (w64), Time.Sub saturating; timestamps with whole seconds',
+                   'binary64 comparison of expected/elapsed with 2.5 and 0.4 modelled as exact rational comparison (validated by correspondence at the boundaries, not proved)'],
+  'assumptions': ['totality (no panic for every rule-abiding timestamp sequence under the physical guard Difficulty, OakWork, TotalWork < 2^240) is checked by correspondence/oracle on generated chains, not yet a theorem',
+                  'equality of the PoW projection of ApplyBlock with ApplyHeader is checked in the ledger correspondence (C09/C01 streams)'],
+  'level_text': 'Proved for all states/inputs of the model: final-cut clamp |D\'-D| <= max(D/250,1) and D\' >= 1; v2 clamp D-D/250 <= D\' <= D+D/250 and never zero; Oak-era target within x1004/1000 each way (except the ASIC reset height); pre-Oak target unchanged off the 500-block boundary and otherwise scaled by a ratio in [0.4,2.5]; cumulative work strictly increasing under v2; target/difficulty floored-inverse relation per era; ValidateHeader accepts iff the four conditions; SufficientlyHeavierThan asymmetric. ApplyHeader/ValidateHeader/SufficientlyHeavierThan are tied to the model by recomputing every transition of generated chains crossing all eras. Partial: totality and the binary64 step are correspondence only.',
+}
+
 NOT_YET = {}
